@@ -157,7 +157,7 @@ func (b *batch) Commit(ctx context.Context) error {
 			b.store.skl.Remove(keyBytes)
 		} else {
 			if v.ttl != 0 {
-				b.asyncRemove(keyBytes, v.ttl)
+				b.asyncRemove(keyBytes, v.val, v.ttl)
 			}
 			b.store.skl.Set(keyBytes, v.val)
 		}
@@ -167,14 +167,26 @@ func (b *batch) Commit(ctx context.Context) error {
 	return nil
 }
 
-func (b *batch) asyncRemove(key []byte, seconds int64) {
+func (b *batch) asyncRemove(key []byte, val []byte, seconds int64) {
 	if seconds == 0 {
 		return
 	}
 
 	go func(kvStorage storage.KvStorage) {
 		time.AfterFunc(time.Duration(seconds)*time.Second, func() {
-			_ = b.store.del(key)
+			b.store.expire(key, val)
 		})
 	}(b.store)
+}
+
+// expire removes key if it still holds the value that was written with the ttl;
+// a key that has been rewritten since is a new binding with its own lifetime.
+func (s *store) expire(key []byte, val []byte) {
+	s.mu.Lock()
+	defer s.mu.Unlock()
+	cur, err := s.get(key)
+	if err != nil || !bytes.Equal(cur, val) {
+		return
+	}
+	s.skl.Remove(key)
 }
